@@ -66,6 +66,14 @@ def sweep(exe, root, variant, seed, tier, stats):
     # multi-byte random damage (exercised, not claimed detected with certainty)
     for _ in range(60):
         muts.append(('multi', rng.below(n), rng.below(1 << 30)))
+    # length prefixes of the strings (names, uuids, paths, link targets) set to the boundary values of the decoder's
+    # buffers: 127/128/129 and 4095/4096/4097 in the 7-bit encoding, overwriting two bytes or replacing the one-byte prefix
+    cands = [o for o in range(n - 2) if orig[o] & 0x80 and 1 <= (orig[o] & 0x7f) <= 80 and o + 1 + (orig[o] & 0x7f) <= n
+             and all(32 <= c < 127 for c in orig[o + 1:o + 1 + (orig[o] & 0x7f)])]
+    pick = cands if tier == 'thorough' else (cands[:5] + [cands[rng.below(len(cands))] for _ in range(3)] if cands else [])
+    for o in sorted(set(pick)):
+        for pair in ((0x7f, 0x80), (0x00, 0x81), (0x7f, 0x9f), (0x00, 0xa0)):
+            muts.append(('pair', o, pair)); muts.append(('pairins', o, pair))
     problems = []
     cmds = ['status', 'diff', 'list', 'check', 'sync', 'scrub', 'dup']
     reqs, cases = [], []
@@ -81,6 +89,10 @@ def sweep(exe, root, variant, seed, tier, stats):
             b[o] = v
         elif kind == 'add':
             b[o] = (b[o] + 1) & 0xff
+        elif kind == 'pair':
+            b[o], b[o + 1] = v
+        elif kind == 'pairins':
+            b[o:o + 1] = bytes(v)
         else:
             r2 = e2e.Rng(v)
             for _ in range(2 + r2.below(6)):
@@ -101,7 +113,7 @@ def sweep(exe, root, variant, seed, tier, stats):
         desc = 'variant=%d %s offset=%d value=%s cmd=%s (content of %d bytes)' % (variant, kind, o, v, cmd, n)
         if 'AddressSanitizer' in r.out or 'runtime error:' in r.out:
             problems.append(('memory-unsafe behaviour on damaged content: ' + desc, r.out[-1500:] + '\ncontent(hex)=' + b.hex()))
-        if kind != 'multi':
+        if kind not in ('multi', 'pair', 'pairins'):
             if r.rc == 0:
                 problems.append(('damaged content file was LOADED (exit 0): ' + desc, 'content(hex)=' + b.hex() + '\noriginal(hex)=' + orig.hex()))
             if before != after:
@@ -394,7 +406,7 @@ def main(tier, seed):
             chk.violation('C09 static obligation failed: ' + o[0], o[0] + '\n' + o[2], False, 'static')
     chk.evaluations = stats['runs'] + stats['saves'] + stats['kills']
     chk.distinct = stats['runs']
-    chk.rule = ('SWEEP on 3 content shapes (v2; v3 with split parity and 8-byte hashes; interrupted sync with pending/deleted blocks, links, 4-byte hashes): every truncation length (sampled above 700 bytes in quick) and byte offsets x {one bit, 0x00, 0xFF, +1} (thorough: every offset, every bit) + multi-byte damage; ASan+UBSan binary must exit non-zero and modify nothing, Lean decoder must reject. Save protocol: shim call logs of saves with 1..5 copies must be accepted by the proved acceptor. Kill sweep before/after/mid every content-file call of a sync. Silent write faults: a flipped bit stored by the 1st/2nd write to the temporary file of each content copy (2-4 copies) must be caught by the verification before any rename. Stale temporary files that are symlinks / hard links to the live content copy: the save must still write a fresh file beside the old one')
+    chk.rule = ('SWEEP on 3 content shapes (v2; v3 with split parity and 8-byte hashes; interrupted sync with pending/deleted blocks, links, 4-byte hashes): every truncation length (sampled above 700 bytes in quick) and byte offsets x {one bit, 0x00, 0xFF, +1} (thorough: every offset, every bit) + multi-byte damage + string length prefixes set to the buffer boundaries of the decoder (127/128, 4095/4096); ASan+UBSan binary must exit non-zero and modify nothing, Lean decoder must reject. Save protocol: shim call logs of saves with 1..5 copies must be accepted by the proved acceptor. Kill sweep before/after/mid every content-file call of a sync. Silent write faults: a flipped bit stored by the 1st/2nd write to the temporary file of each content copy (2-4 copies) must be caught by the verification before any rename. Stale temporary files that are symlinks / hard links to the live content copy: the save must still write a fresh file beside the old one')
     chk.samples = [dict(stats)]
     chk.corr['SWEEP+SAVE+KILL'] = {k: v for k, v in stats.items()}
     chk.finish()
